@@ -339,8 +339,23 @@ void workload(vf::Ctx& c, vf::RunCfg<T> const& cfg, std::vector<std::size_t> con
             VF_CHECK(c, !in.fail(), "C18:resume-read-failed", "the file left behind could not be read back");
             have = resumed.results().size();
         }
-        Chk const fin = R::run(cfg, resumed, std::vector<std::size_t>(calls.begin() + have, calls.end()), go);
-        VF_CHECK(c, vf::text_of(fin) == ref[n], "C18:resume-differs", kind << " at tracked call " << pos << ": resuming from the file does not reproduce the undisturbed run");
+        // the resumed run writes checkpoints again, in the same directory, with whatever the killed run left behind
+        // (e.g. a partial temporary file): after each of its callbacks the file must be exactly the checkpoint shown
+        bool file_ok = true;
+        std::size_t bad_at = 0;
+        {
+            hep::callback<Chk> inner(verbose ? hep::callback_mode::verbose_and_write_chkpt : hep::callback_mode::silent_and_write_chkpt, file, T(0));
+            auto cb = [&, inner](Chk const& k) mutable {
+                bool const more = inner(k);
+                bool e2 = false;
+                if (file_ok && slurp(file, e2) != vf::text_of(k)) { file_ok = false; bad_at = k.results().size(); }
+                return more;
+            };
+            Chk const fin = R::run(cfg, resumed, std::vector<std::size_t>(calls.begin() + have, calls.end()), cb);
+            VF_CHECK(c, vf::text_of(fin) == ref[n], "C18:resume-differs", kind << " at tracked call " << pos << ": resuming from the file does not reproduce the undisturbed run");
+        }
+        VF_CHECK(c, file_ok, "C18:resumed-run-writes-incomplete-file", kind << " at tracked call " << pos << ": the run resumed in the same directory wrote a file after iteration "
+            << bad_at << " that is not the checkpoint of that iteration (left-overs of the killed run are not ignored)");
     };
 
     for (long pos = 0; pos != static_cast<long>(seq.size()); ++pos)
